@@ -13,6 +13,7 @@ pub const CK_STATS: u32 = 1 << 22;
 static THROTTLED: AtomicU64 = AtomicU64::new(0);
 static WAITS: AtomicU64 = AtomicU64::new(0);
 static POINTS_WITH_LEAD: AtomicU64 = AtomicU64::new(0);
+static SPECLINK_PINGS: AtomicU64 = AtomicU64::new(0);
 
 fn v(kind: &str, node: usize, round: i32, detail: String) -> Violation {
     Violation { prop: "C15", kind: kind.to_owned(), detail, round, node }
@@ -22,8 +23,52 @@ fn intended_lead(scn: &Scenario) -> i32 {
     scn.name.split("lead=").nth(1).and_then(|s| s.split(' ').next()).and_then(|s| s.parse().ok()).unwrap_or(0)
 }
 
+/// The host<->spectator link: ping on both ends, errors before numbers.
+fn judge_spectator_link(scn: &Scenario, res: &ExecResult) -> Vec<Violation> {
+    let mut out = Vec::new();
+    let round_ms = scn.round_us as f64 / 1000.0;
+    let lat_ms = 2.0 * scn.latency as f64 * round_ms;
+    for (ni, nt) in res.nodes.iter().enumerate() {
+        if nt.crashed.is_some() || (ni < scn.peers.len() && !scn.specs.iter().any(|sp| sp.host == scn.peers[ni].addr)) {
+            continue;
+        }
+        let who = if nt.is_spec { "spectator" } else { "host (for its spectator)" };
+        for c in &nt.calls {
+            let age_ms = (c.t_us - 1_000_000) / 1000;
+            if scn.handshake_phase && age_ms < 1000 && c.stats.0 == R_OK {
+                out.push(v("stats-too-early", ni, c.round, format!("{who}: network_stats() returned numbers {age_ms} ms after the session was created (ping {})", c.stats.1)));
+                return out;
+            }
+            if c.stats.0 != R_OK && c.stats.0 != R_NOT_ENOUGH_DATA && c.stats.0 != R_NOT_SYNC && c.stats.0 != 255 {
+                out.push(v("stats-wrong-error", ni, c.round, format!("{who}: network_stats() failed with code {}", c.stats.0)));
+                return out;
+            }
+        }
+        if scn.handshake_phase {
+            continue;
+        }
+        let Some(c) = nt.calls.last() else { continue };
+        if nt.calls.len() < 120 {
+            continue;
+        }
+        if c.stats.0 != R_OK {
+            out.push(v("stats-error-late", ni, c.round, format!("{who}: network_stats() fails with code {} after {} rounds", c.stats.0, c.round)));
+            continue;
+        }
+        let ping = c.stats.1 as f64;
+        SPECLINK_PINGS.fetch_add(1, Ordering::Relaxed);
+        if (ping - lat_ms).abs() > round_ms + 1.0 {
+            out.push(v("ping-wrong", ni, c.round, format!("{who}: network_stats().ping = {ping} ms; the link's round trip is {lat_ms:.1} ms (one tick = {round_ms:.1} ms)")));
+        }
+    }
+    out
+}
+
 pub fn judge(scn: &Scenario, res: &ExecResult, _b: Option<&ExecResult>) -> Vec<Violation> {
     let mut out = Vec::new();
+    if scn.stats_spectator {
+        return judge_spectator_link(scn, res);
+    }
     let (a, b) = (&res.nodes[0], &res.nodes[1]);
     if a.crashed.is_some() || b.crashed.is_some() {
         return out;
@@ -307,6 +352,25 @@ pub fn c15() -> i32 {
             }
         }
     }
+    // the host<->spectator link: the host's network_stats(spectator handle) and the spectator's
+    // network_stats(), all-local hosts and hosts with a remote player
+    for fps in [60usize, 30] {
+        for lat in [0, 1, 3, 6] {
+            for (tp, hs) in [("2", false), ("1+1", false), ("1", true), ("1+1", true)] {
+                let mut s = base_scn("c15-spectator-link", tp, 8, 0, false, Pred::RepeatLast, Program::Changing, lat);
+                s.specs.push(SpecSpec::new(20, s.peers[0].addr));
+                s.fps = fps;
+                s.round_us = 1_000_000 / fps as u64;
+                s.stats_spectator = true;
+                s.handshake_phase = hs;
+                s.horizon = 0;
+                s.probe = if hs { 2 * fps as i32 } else { 6 * fps as i32 };
+                s.checks = CK_C02 | CK_STATS;
+                s.name = format!("{} fps={fps} handshake={hs}", s.name);
+                scns.push(s);
+            }
+        }
+    }
     // errors before numbers
     for fps in [60usize, 30] {
         for lat in [0, 2] {
@@ -336,6 +400,11 @@ pub fn c15() -> i32 {
     rep.coverage.insert("grid_points_whose_realised_lead_differs_from_the_intended_or_is_not_constant".into(), json!(thr));
     rep.coverage.insert("grid_points_judged_with_nonzero_constant_lead".into(), json!(with_lead));
     rep.coverage.insert("wait_recommendations_checked".into(), json!(waits));
+    let sp = SPECLINK_PINGS.load(Ordering::Relaxed);
+    rep.coverage.insert("host_spectator_link_pings_checked".into(), json!(sp));
+    if sp == 0 {
+        rep.machinery.push("vacuous: no ping was ever read on a host<->spectator link".to_owned());
+    }
     if waits == 0 || with_lead < 10 {
         rep.machinery.push(format!("vacuous: {waits} WaitRecommendations, {with_lead} points with a non-zero constant lead"));
     }
